@@ -16,6 +16,7 @@ use crate::util::hash64;
 pub fn gen_case(t: &mut Tape) -> Case {
     let mut feat = Feat::core();
     feat.withdrawals = true;
+    feat.output_positions = true;
     feat.redeemers = true;
     feat.mint = true;
     feat.burn = true;
